@@ -5,6 +5,10 @@ ROOT = os.path.dirname(os.path.dirname(os.path.abspath(__file__)))
 
 CLAIMED = {
  # id: (category, text, note, technique, design_ref)
+ "C13": ("exploration",
+         "Simulated foreign writers: an independent spec encoder turns PRNG-drawn abstract states into every image variant the Java/C++ writers emit (HLL compact and updatable list/set/array layouts, compact-flag arrays, both Hll4 aux layouts, out-of-order flag; theta serial versions 1-4 in empty/single/exact/estimating, ordered/unordered forms; t-digest native f64/f32 with buffered values and the reference asBytes/asSmallBytes encodings; Bloom dirty counts; Frequent Items longs/strings/empty; Count-Min over all counter types) and delivers them to real nodes, which must restore exactly the encoded state (accessors, estimates, flags), union/merge it with local sketches to the model union, keep it equal to the model under further updates, and re-serialize to an image the independent decoder reads back to the same state.",
+         "Trusted base: the format transcription in DESIGN.md Appendix A (shared with C12) and the abstract-state models.",
+         "deterministic simulation: foreign-writer stubs (independent spec encoder) injecting image variants into real readers vs abstract-state model", "DESIGN.md §4 C13"),
  "C12": ("exploration",
          "A simulated foreign peer: every image a real Writer node emits - after PRNG-drawn histories of crafted and hashed updates, unions/merges with sketches of other sizes, trims/inversions, through every mode/flavor/form of every family, plus spot runs at CPC lg_k 19-21 - is decoded by an independent decoder written from the cross-language format description, which rejects what a Java/C++ reader would reject or misread and otherwise yields an abstract state that must equal the reference model of the stream (registers/coupons/aux/kxq/flags, CPC matrix decompressed with decode tables derived from the encode tables, theta entries/theta/minimal widths, Bloom words, Count-Min table, Frequent Items pairs, t-digest centroids).",
          "Trusted base: the format transcription in DESIGN.md Appendix A and the CPC entropy-table data (encode side). No fault kind bears on this property: the simulator contributes the stub peer and the population of states.",
